@@ -53,6 +53,9 @@ def run(ctx):
     ctx.alias = {'R5': 'R3'}
     c05.r5_subtoken_filter(ctx)
     ctx.alias = {}
+    # include x exclude: the selection is closure(include) - closure(exclude), so an exclusion acts whatever was included (C11.R5 as R5)
+    from . import c11
+    c11.r5_selection(ctx)
     # category selection x encoding: the basic encodings are the extended ones with the separators removed, for every selection
     from . import c04
     ctx.alias = {'R1': 'R4', 'R3': 'R4'}
